@@ -565,7 +565,7 @@ def run(chk):
     r4.ob("ChaiScript_Parser::parse: only eval_error can escape (%d functions on the parse path analysed)" % len(sub), not esc, p.where, p["q"], "escaping: %s" % sorted(esc))
     for name, why in ALLOW4.items():
         r4.note("allow-listed digit converter %s -- %s" % (name, why))
-    r4.note("calls into chaiscript::optimizer are cut here; that Optimizer::optimize cannot throw is C02 R2.3")
+    r4.note("calls into chaiscript::optimizer are cut here; that Optimizer::optimize cannot throw is R1.5 (= C02 R2.3)")
     ne = getattr(ef, "noexcept_escape", {})
     seen = set()
     nne = 0
@@ -583,6 +583,12 @@ def run(chk):
               "%s can leave a %s: std::terminate kills the host (thrown in %s)" % (sorted(types), "destructor" if g["kind"] == "dtor" else "noexcept function",
                                                                                    sorted({x[0].split("::")[-1] for v in src.values() for x in v})[:4]))
     r4.require(2, "obligations")
+
+    # ------------------------------------------------------------------ R1.5
+    r5 = chk.rule("R1.5", "the optimizer runs inside build_match, i.e. inside parse(): no exception can leave Optimizer::optimize (analysis shared with C02 R2.3)",
+                  "parsing yields a tree or eval_error, never another exception type from a fold-time failure")
+    from .c02 import decide_optimizer_throws
+    decide_optimizer_throws(chk, r5, prog, cg, label="Optimizer::optimize (called from build_match)")
 
 
 def has_depth_guard(prog, g):
